@@ -57,6 +57,69 @@ def line_soups(n, rng, maxlines=7):
     return out
 
 
+def flow_soups(n, rng, maxdepth=4):
+    """random flow collections with explicit keys, omitted keys/values, trailing commas, properties: mostly well-formed"""
+    atoms = ["a", "b", "'q'", "\"d\"", "*x", "1", "a b"]
+    props = ["", "", "", "&x ", "!t ", "&x !t ", "!!str "]
+
+    def node(d):
+        r = rng.random()
+        if d <= 0 or r < 0.45:
+            return rng.choice(props) + rng.choice(atoms) if rng.random() < 0.9 else rng.choice(props).strip()
+        sp = lambda: rng.choice(["", " ", " ", "\n ", "  "])
+        if r < 0.72:
+            items = []
+            for _ in range(rng.randrange(0, 4)):
+                k = rng.random()
+                if k < 0.45:
+                    items.append(node(d - 1))
+                elif k < 0.6:
+                    items.append("? " + node(d - 1) + sp() + ":" + rng.choice([" ", ""]) + rng.choice([node(d - 1), ""]))
+                elif k < 0.7:
+                    items.append("? " + rng.choice([node(d - 1), ""]))
+                elif k < 0.9:
+                    items.append(rng.choice([node(d - 1), ""]) + sp() + ": " + rng.choice([node(d - 1), ""]))
+                else:
+                    items.append("")
+            body = ("," + sp()).join(items)
+            if rng.random() < 0.2:
+                body += ","
+            return rng.choice(props) + "[" + sp() + body + sp() + "]"
+        items = []
+        for _ in range(rng.randrange(0, 4)):
+            k = rng.random()
+            if k < 0.5:
+                items.append(node(d - 1) + sp() + ": " + rng.choice([node(d - 1), ""]))
+            elif k < 0.7:
+                items.append("? " + node(d - 1) + sp() + ": " + node(d - 1))
+            elif k < 0.8:
+                items.append("? " + rng.choice([node(d - 1), ""]))
+            elif k < 0.9:
+                items.append(node(d - 1))
+            else:
+                items.append(": " + node(d - 1))
+        body = ("," + sp()).join(items)
+        if rng.random() < 0.2:
+            body += ","
+        return rng.choice(props) + "{" + sp() + body + sp() + "}"
+    out = []
+    for _ in range(n):
+        s = node(maxdepth)
+        r = rng.random()
+        if r < 0.25:
+            s = "k: " + s + "\n"
+        elif r < 0.4:
+            s = "- " + s + "\n"
+        elif r < 0.5:
+            s = "--- " + s + "\n...\n"
+        if rng.random() < 0.12 and s:
+            # a small mutation: drop or duplicate one character
+            p = rng.randrange(len(s))
+            s = s[:p] + (s[p] * 2 if rng.random() < 0.5 else "") + s[p + 1:]
+        out.append(s)
+    return out
+
+
 _suite = None
 
 
@@ -122,12 +185,14 @@ def parse_space(tier, rng):
         groups.append(("exhaustive<=3/24", list(exhaustive(INDICATORS, 3))))
         groups.append(("soups", soups(6000, rng)))
         groups.append(("line-soups", line_soups(6000, rng)))
+        groups.append(("flow-soups", flow_soups(5000, rng)))
         groups.append(("suite-variants", suite_variants()))
         groups.append(("mutated-suite", mutated_suite(3000, rng)))
     else:
         groups.append(("exhaustive<=4/24", list(exhaustive(INDICATORS, 4))))
         groups.append(("soups", soups(150000, rng)))
         groups.append(("line-soups", line_soups(150000, rng)))
+        groups.append(("flow-soups", flow_soups(120000, rng)))
         groups.append(("suite-variants", suite_variants()))
         groups.append(("mutated-suite", mutated_suite(60000, rng)))
     return groups
